@@ -42,7 +42,7 @@ type refAcct struct {
 type refState struct {
 	accts     []*refAcct
 	edges     map[[4]string]bool // from name, from host, to name, to host
-	uncertain bool               // a failed multi-target statement may have had a partial effect
+	failed    bool               // an account-management statement failed with an error (it may have had a partial effect)
 	region    bool               // a db-level REVOKE hit an account holding table/routine grants in that db
 }
 
@@ -574,10 +574,8 @@ func (h *history) adminStep(g *gen, wide bool) {
 	h.feat[stmt.Kind] = true
 	if obs == "ok" {
 		h.ref.apply(stmt, cur)
-	} else if !refused(obs) && len(stmt.Users)+len(stmt.Roles) > 2 {
-		h.ref.uncertain = true
-	} else if !refused(obs) && len(stmt.Users) > 1 {
-		h.ref.uncertain = true
+	} else if strings.HasPrefix(obs, "err:") {
+		h.ref.failed = true
 	}
 }
 
@@ -622,19 +620,26 @@ func (h *history) probeStep(g *gen) {
 	if host == "127.0.0.1" || host == "::1" {
 		host = "localhost"
 	}
-	if a := h.ref.find(user, host); a != nil && !h.ref.uncertain && obs != "noaccount" {
+	if a := h.ref.find(user, host); a != nil && obs != "noaccount" {
 		want := p.allowed(h.ref.effective(a), db, tbl)
 		if want != (obs == "ok") {
-			tag := "-"
-			if h.ref.region {
-				tag = "db_revoke_drops_lower_grants"
-			}
-			h.notes = append(h.notes, fmt.Sprintf("%s\t%s by %s@%s: engine says %s, the grants made so far say allowed=%v", tag, text, user, addr, obs, want))
+			h.notes = append(h.notes, fmt.Sprintf("%s\t%s by %s@%s: engine says %s, the grants made so far say allowed=%v", h.tag(), text, user, addr, obs, want))
 		}
 		if want {
 			h.feat["probe-allowed"] = true
 		}
 	}
+}
+
+// tag names the known-defect region the history is in (decided on the history, not on the failure).
+func (h *history) tag() string {
+	switch {
+	case h.ref.region:
+		return "db_revoke_drops_lower_grants"
+	case h.ref.failed:
+		return "failed_statement_partial_effect"
+	}
+	return "-"
 }
 
 func (h *history) syntheticStep(g *gen) {
@@ -671,7 +676,10 @@ func (h *history) finish() {
 		h.out.OracleFail(id, parts[0], parts[1])
 	}
 	if h.ref.region {
-		h.out.Stat("history:in-known-region")
+		h.out.Stat("history:in-region-db-revoke")
+	}
+	if h.ref.failed {
+		h.out.Stat("history:in-region-failed-statement")
 	}
 	h.out.Stat("history")
 }
@@ -696,6 +704,23 @@ func corpus(out *hx.Out) {
 		s := aclx.Stmt{Kind: "revoke", LvDb: "d", LvTbl: "*", Privs: rev, Users: []aclx.Acct{u}}
 		if h.sqlStep("root", "localhost", "d", s) == "ok" {
 			h.ref.apply(s, "d")
+		}
+		h.probeFixed("u1", "localhost", "d", "t", probes[0])
+		h.feat["grant"] = true
+		h.finish()
+	}
+	// F-C39-b: a GRANT that fails on its second privilege keeps the first
+	{
+		h := newHistory(out)
+		for _, s := range []aclx.Stmt{
+			{Kind: "cu", Users: []aclx.Acct{u}},
+			{Kind: "grant", LvDb: "d", LvTbl: "*", Privs: []aclx.PPriv{{Type: 25}, {Type: 29}}, Users: []aclx.Acct{u}},
+		} {
+			if obs := h.sqlStep("root", "localhost", "d", s); obs == "ok" {
+				h.ref.apply(s, "d")
+			} else if strings.HasPrefix(obs, "err:") {
+				h.ref.failed = true
+			}
 		}
 		h.probeFixed("u1", "localhost", "d", "t", probes[0])
 		h.feat["grant"] = true
@@ -746,11 +771,7 @@ func (h *history) probeFixed(user, addr, db, tbl string, p probe) {
 	if a := h.ref.find(user, addr); a != nil {
 		want := p.allowed(h.ref.effective(a), db, tbl)
 		if want != (obs == "ok") {
-			tag := "-"
-			if h.ref.region {
-				tag = "db_revoke_drops_lower_grants"
-			}
-			h.notes = append(h.notes, fmt.Sprintf("%s\t%s by %s@%s: engine says %s, the grants made so far say allowed=%v", tag, text, user, addr, obs, want))
+			h.notes = append(h.notes, fmt.Sprintf("%s\t%s by %s@%s: engine says %s, the grants made so far say allowed=%v", h.tag(), text, user, addr, obs, want))
 		}
 		if want {
 			h.feat["probe-allowed"] = true
@@ -766,11 +787,11 @@ func run(a hx.RunArgs) error {
 		"run by root or by ordinary accounts, with probes by sessions user@address (exact, loopback, pattern and unknown hosts): SQL statements of 11 privilege classes and direct HandleAuth calls over " +
 		"all AuthType x TargetType combinations incl. malformed ones; a history is non-trivial when it contains a GRANT and a probe the grants allow"
 	corpus(out)
-	nHist, maxSteps := 220, 30
+	nHist, maxSteps := 500, 30
 	if a.Thorough {
-		nHist, maxSteps = 26000, 40
+		nHist, maxSteps = 40000, 40
 	}
-	r := hx.NewRand(a.Seed)
+	r := hx.NewRand(aclx.Scramble(a.Seed))
 	for i := 0; i < nHist; i++ {
 		h := newHistory(out)
 		g := &gen{r: r.Fork(), ref: h.ref}
@@ -935,6 +956,61 @@ func leanTriples(name string, rows [][3]string) string {
 	return b.String()
 }
 
+func indexOf(names []string, n string) int {
+	for i, x := range names {
+		if x == n {
+			return i
+		}
+	}
+	return -1
+}
+
+// privTable translates a `switch priv.Type` table into numbers: the cases that call one and the same
+// method with a privilege constant become (plan privilege, sql privilege) pairs; all other case labels
+// are listed as specials (plan privilege number, 99 for `default`).
+func privTable(lf *hx.LeanFile, name string, rows [][3]string, planNames, sqlNames []string) error {
+	method := ""
+	var pairs, specials []string
+	for _, r := range rows {
+		pi := indexOf(planNames, r[0])
+		if r[0] == "default" {
+			pi = 99
+		}
+		if pi < 0 {
+			return fmt.Errorf("%s: unknown case label %s", name, r[0])
+		}
+		if r[1] == "-" {
+			specials = append(specials, fmt.Sprint(pi))
+			continue
+		}
+		if method == "" {
+			method = r[1]
+		}
+		si := indexOf(sqlNames, r[2])
+		if r[1] != method || si < 0 {
+			return fmt.Errorf("%s: case %s calls %s(%s), expected %s(<privilege constant>)", name, r[0], r[1], r[2], method)
+		}
+		pairs = append(pairs, fmt.Sprintf("(%d, %d)", pi, si))
+	}
+	lf.DefString(name+"Method", method)
+	lf.Raw(fmt.Sprintf("def %sCases : List (Nat × Nat) := [%s]\n", name, strings.Join(pairs, ", ")))
+	lf.Raw(fmt.Sprintf("def %sSpecials : List Nat := [%s]\n", name, strings.Join(specials, ", ")))
+	return nil
+}
+
+func privIdxList(lf *hx.LeanFile, name string, consts, sqlNames []string) error {
+	var out []uint64
+	for _, c := range consts {
+		i := indexOf(sqlNames, c)
+		if i < 0 {
+			return fmt.Errorf("%s: unknown privilege constant %s", name, c)
+		}
+		out = append(out, uint64(i))
+	}
+	lf.DefNatList(name, out)
+	return nil
+}
+
 func extract(a hx.ExtractArgs) error {
 	lf := hx.NewLeanFile("Gms.Generated.C39", "sql/privileges.go", "sql/plan/grant_data.go", "sql/plan/grant.go", "sql/plan/revoke.go",
 		"sql/planbuilder/auth_default.go", "sql/mysql_db/mysql_db.go", "sql/mysql_db/privilege_set.go")
@@ -971,7 +1047,9 @@ func extract(a hx.ExtractArgs) error {
 	if err != nil {
 		return err
 	}
-	lf.Raw(leanTriples("convertTable", rows))
+	if err := privTable(lf, "convert", rows, pnames, names); err != nil {
+		return err
+	}
 	fd, err = gd.Func("Privilege", "IsValidDynamic")
 	if err != nil {
 		return err
@@ -1001,7 +1079,9 @@ func extract(a hx.ExtractArgs) error {
 			if err != nil {
 				return err
 			}
-			lf.Raw(leanTriples(strings.ToLower(f.recv[:1])+f.recv[1:]+m, rows))
+			if err := privTable(lf, strings.ToLower(f.recv[:1])+f.recv[1:]+m, rows, pnames, names); err != nil {
+				return err
+			}
 		}
 		fd, err := src.Func(f.recv, "CheckAuth")
 		if err != nil {
@@ -1017,7 +1097,9 @@ func extract(a hx.ExtractArgs) error {
 			return fmt.Errorf("%s.CheckAuth: expected 3 explicit ALL lists, found %d", f.recv, len(lists))
 		}
 		for i, lvl := range []string{"Global", "Db", "Tbl"} {
-			lf.DefStringList(strings.ToLower(f.recv)+"CheckAll"+lvl, lists[i])
+			if err := privIdxList(lf, strings.ToLower(f.recv)+"CheckAll"+lvl, lists[i], names); err != nil {
+				return err
+			}
 		}
 		if f.recv == "Grant" {
 			for _, m := range []struct{ fn, method, out string }{
@@ -1033,7 +1115,9 @@ func extract(a hx.ExtractArgs) error {
 				if len(ls) != 1 {
 					return fmt.Errorf("%s: expected one %s call", m.fn, m.method)
 				}
-				lf.DefStringList(m.out, ls[0])
+				if err := privIdxList(lf, m.out, ls[0], names); err != nil {
+					return err
+				}
 			}
 		}
 	}
@@ -1050,7 +1134,26 @@ func extract(a hx.ExtractArgs) error {
 	if err != nil {
 		return err
 	}
-	lf.Raw(leanTriples("handleAuthTypes", rows))
+	{
+		var simple, special []string
+		for _, r := range rows {
+			if r[1] == "privilegeTypes" {
+				var idx []string
+				for _, c := range strings.Split(r[2], ",") {
+					i := indexOf(names, c)
+					if i < 0 {
+						return fmt.Errorf("HandleAuth: case %s: unknown privilege constant %q", r[0], c)
+					}
+					idx = append(idx, fmt.Sprint(i))
+				}
+				simple = append(simple, fmt.Sprintf("(%s, [%s])", hx.LeanString(strings.TrimPrefix(r[0], "AuthType_")), strings.Join(idx, ", ")))
+			} else {
+				special = append(special, strings.TrimPrefix(r[0], "AuthType_"))
+			}
+		}
+		lf.Raw(fmt.Sprintf("def handleAuthSimple : List (String × List Nat) := [%s]\n", strings.Join(simple, ", ")))
+		lf.DefStringList("handleAuthSpecial", special)
+	}
 	rows, err = switchTable(ad, fd, "auth.TargetType")
 	if err != nil {
 		return err
